@@ -82,7 +82,7 @@ class FakeHandler:
 
 class C15(Prop):
     ID = 'C15'
-    N_QUICK = 4000
+    N_QUICK = 3000
     N_THOROUGH = 24000
     CASE_TIMEOUT = 120
     RULE = ('random hubs of 2-8 ports in random registry order (healthy/faulty x source/register/expression port, some '
@@ -103,7 +103,8 @@ class C15(Prop):
                'Port.adapt_value_type hook (called once per completed evaluation by _eval_and_write)']
     ASSUMPTIONS = ['timing is outside the statement: zero-latency drivers, healthy source values change at tick '
                    'boundaries only, time-independent expressions; the extra polling passes a faulty port\'s writes '
-                   'cause are then unobservable on the healthy ports (checked on the real hub, not proved)',
+                   'cause are then unobservable on the healthy ports (proved for the model under the stability hypothesis: '
+                   'noninterference_full_under_stability; checked here on the real hub)',
                    'faults are Exception subclasses (what "raises errors" means); BaseException/CancelledError from a '
                    'driver is outside the property (the model shows it does interfere)',
                    'drivers raising from attribute getters, returning non-numeric garbage, queue overflow: outside']
